@@ -1032,13 +1032,13 @@ class MinOnOffTask(OneShotTask):
 
         # get the minimum on/off time
         if new_value == "inactive":
-            task_delay = getattr(self.binary_obj, "minimumOnTime") or 0
-            if _debug:
-                MinOnOffTask._debug("    - minimum on: %r", task_delay)
-        elif new_value == "active":
             task_delay = getattr(self.binary_obj, "minimumOffTime") or 0
             if _debug:
                 MinOnOffTask._debug("    - minimum off: %r", task_delay)
+        elif new_value == "active":
+            task_delay = getattr(self.binary_obj, "minimumOnTime") or 0
+            if _debug:
+                MinOnOffTask._debug("    - minimum on: %r", task_delay)
         else:
             raise ValueError(
                 "unrecognized present value for %r: %r"
